@@ -56,6 +56,32 @@ type Public struct {
 	Pedersen *pedersen.Parameters
 }
 
+// ValidateBasic checks that the config is complete enough to start a protocol with it:
+// no nil group, secrets or public entries, own ID present, and a threshold that fits the number of parties.
+func (c *Config) ValidateBasic() error {
+	if c == nil {
+		return errors.New("config: config is nil")
+	}
+	if c.Group == nil {
+		return errors.New("config: group is nil")
+	}
+	if c.ECDSA == nil || c.ElGamal == nil || c.Paillier == nil {
+		return errors.New("config: missing secret key material")
+	}
+	if !ValidThreshold(c.Threshold, len(c.Public)) {
+		return fmt.Errorf("config: threshold %d is invalid for %d parties", c.Threshold, len(c.Public))
+	}
+	if _, ok := c.Public[c.ID]; !ok {
+		return errors.New("config: no public data for own ID")
+	}
+	for id, public := range c.Public {
+		if public == nil || public.ECDSA == nil || public.ElGamal == nil || public.Paillier == nil || public.Pedersen == nil {
+			return fmt.Errorf("config: incomplete public data for party %s", id)
+		}
+	}
+	return nil
+}
+
 // PublicPoint returns the group's public ECC point.
 func (c *Config) PublicPoint() curve.Point {
 	sum := c.Group.NewPoint()
